@@ -232,6 +232,59 @@ def cross_des(tuA: codec.TypeUnit, tuB: codec.TypeUnit, L: int) -> codec.QueryLo
     return log
 
 
+def replay_c03(tu: codec.TypeUnit, cex: dict, on: str) -> typing.Tuple[bool, str]:
+    """native replay of the C03 counterexample kinds (everything else: the generic replay)"""
+    kind = cex["kind"]
+    inp = cex.get("inputs")
+    if kind not in ("roundtrip-value", "roundtrip-bytes", "cross-option") or not inp:
+        return codec.replay(tu, cex)
+    t = tu.t
+    mx = codec.max_bytes(t)
+    if kind == "cross-option":
+        a, b = [x.strip() for x in on.split(" vs ")]
+        tub = cc.unit_for(t, b, "B")
+        fn = cex["fn"]
+        n = cex["bufsize"] if fn == "ser" else cex["L"]
+        objhex = inp["obj"] if fn == "ser" else inp["dst"]
+        r1, o1, _ = codec.native_run(tu, fn, n, objhex, inp["buf"])
+        r2, o2, _ = codec.native_run(tub, fn, n, objhex, inp["buf"])
+        if r1 != 0 or r2 != 0:
+            return True, "native run crashed"
+        if fn == "ser":
+            differs = o1["rc"] != o2["rc"] or (o1["rc"] == 0 and (o1["size"] != o2["size"] or o1["buf"][:o1["size"]] != o2["buf"][:o2["size"]]))
+            return differs, f"{a}: rc={o1['rc']} {o1['buf'][:o1['size']].hex()} / {b}: rc={o2['rc']} {o2['buf'][:o2['size']].hex()}"
+        buf = [z3.BitVecVal(x, 8) for x in bytes.fromhex(inp["buf"])]
+        differs = o1["rc"] != o2["rc"] or o1["size"] != o2["size"] or (o1["rc"] == 0 and codec._meaningful_differs2(tu, buf, o1, o2))
+        return differs, f"{a}: rc={o1['rc']} size={o1['size']} obj={o1['obj'].hex()[:40]} / {b}: rc={o2['rc']} size={o2['size']} obj={o2['obj'].hex()[:40]}"
+    # round trip: serialize -> deserialize exactly the produced bytes -> serialize again
+    r1, o1, _ = codec.native_run(tu, "ser", mx, inp["obj"], "00" * mx)
+    if r1 != 0:
+        return True, "native run crashed"
+    if o1["rc"] != 0:
+        return False, f"first serialization rejected natively rc={o1['rc']}"
+    wire = o1["buf"][:o1["size"]]
+    r2, o2, _ = codec.native_run(tu, "des", len(wire), "5a" * tu.size, wire.hex())
+    if r2 != 0:
+        return True, "native run crashed"
+    if o2["rc"] != 0 or o2["size"] != len(wire):
+        return True, f"deserialize(serialize(x)) -> rc={o2['rc']} consumed={o2['size']} of {len(wire)}"
+    if kind == "roundtrip-bytes":
+        r3, o3, _ = codec.native_run(tu, "ser", mx, o2["obj"].hex(), "ff" * mx)
+        differs = r3 != 0 or o3["rc"] != 0 or o3["buf"][:o3["size"]] != wire
+        return differs, f"first={wire.hex()} second={o3.get('buf', b'')[:o3.get('size', 0)].hex()} rc={o3.get('rc')}"
+    v = D.c_read(t, "", tu.lay, [z3.BitVecVal(x, 8) for x in bytes.fromhex(inp["obj"])])
+    w = D.c_read(t, "", tu.lay, [z3.BitVecVal(x, 8) for x in o2["obj"]])
+    conj: typing.List[typing.Any] = []
+    try:
+        _rt_expect(v, w, D.Chooser(codec._model([])), conj)
+    except D.Invalid:
+        return True, "serializer accepted a value without representation"
+    s = z3.Solver()
+    s.add(z3.Not(z3.And(*conj)) if conj else z3.BoolVal(False))
+    bad = s.check() == z3.sat
+    return bad, f"wire={wire.hex()} decoded object={o2['obj'].hex()[:64]} differs from the cast-adjusted original: {bad}"
+
+
 PAIRS_QUICK = [("default", "little"), ("default", "any+asserts")]
 PAIRS_ALL = [("default", "little"), ("default", "any+asserts"), ("little", "little+asserts"), ("any+asserts", "little+asserts")]
 
@@ -274,7 +327,7 @@ def main(tier: str) -> int:
         tasks += [(i, "cross", a, b) for a, b in pairs for i in range(len(types))]
         for res in common.pmap(_work, tasks):
             for ti, on, what, lg, tu, wall in res:
-                cc.record(rep, types[ti], on, what, lg, tu, wall)
+                cc.record(rep, types[ti], on, what, lg, tu, wall, replayer=replay_c03)
         rep.functions = ["<T>_serialize_ and <T>_deserialize_ of every corpus type, chained (end states of one run are the start states of the next) and paired across builds"]
         rep.bounds = dict(types=len(types), chain="serialize at the maximum size, deserialize exactly the produced bytes, serialize again",
                           option_pairs=[f"{a} vs {b}" for a, b in pairs], cross_deserialize_lengths=("{0,1,ceil(max/2),max,max+1}" if tier == "quick" else "0..max(extent,max)+2"),
